@@ -27,6 +27,7 @@ type shardReq struct {
 	Bound    int     `json:"bound"`
 	Trace    bool    `json:"trace"`
 	MaxViol  int     `json:"max_viol"`
+	Single   bool    `json:"single"` // run only the execution of Prefix and return its children
 }
 
 type shardResp struct {
@@ -38,6 +39,7 @@ type shardResp struct {
 	Violations, Known     []*Violation
 	TimedOut              bool
 	States                int
+	Kids                  [][]int
 }
 
 // WorkerArgs is how a child process is started for a part: argv after the binary name.
@@ -46,6 +48,9 @@ type WorkerSpec struct {
 	Procs    int      // number of worker processes
 	Env      []string // extra environment
 	Frontier int      // open subtrees wanted before handing out (default 8*Procs)
+	// RemoteFrontier: the coordinator never runs the body itself (bodies that need a synctest
+	// bubble); the top of the tree is expanded through a worker, one execution per request.
+	RemoteFrontier bool
 }
 
 // subtree explores every execution below prefix sequentially.
@@ -77,7 +82,11 @@ func subtree(name string, cfg Config, param any, body func(*Ctx), req shardReq, 
 							np[k] = int(c.trail[k].pick)
 						}
 						np[i] = alt
-						stack = append(stack, item{prefix: np})
+						if req.Single {
+							resp.Kids = append(resp.Kids, np)
+						} else {
+							stack = append(stack, item{prefix: np})
+						}
 					}
 				}
 				used += p.kind.cost(int(p.pick))
@@ -144,6 +153,14 @@ func subtree(name string, cfg Config, param any, body func(*Ctx), req shardReq, 
 func ServeWorker(name string, cfg Config, param any, body func(*Ctx)) {
 	in := bufio.NewReaderSize(os.Stdin, 1<<20)
 	out := bufio.NewWriter(os.Stdout)
+	if !cfg.NoDetCheck && os.Getenv("MC_DETCHECK") == "1" {
+		e := &explorer{cfg: cfg, body: body, param: param, name: name, outcomes: newHashSet(), nontr: newHashSet()}
+		a, b := e.runOne(nil, false), e.runOne(nil, false)
+		if fmt.Sprint(a.trail, a.ops, a.out, a.fail == nil) != fmt.Sprint(b.trail, b.ops, b.out, b.fail == nil) {
+			fmt.Fprintf(os.Stderr, "mc: NONDETERMINISM in %s: default execution not reproducible\n A: %v | %s | %v\n B: %v | %s | %v\n", name, a.ops, a.out, a.trail, b.ops, b.out, b.trail)
+			os.Exit(4)
+		}
+	}
 	for {
 		line, err := in.ReadBytes('\n')
 		if err != nil {
@@ -297,7 +314,7 @@ func ExploreSharded(name string, cfg Config, spec WorkerSpec, param any, body fu
 	}
 
 	// determinism check + frontier expansion in-process (breadth-first)
-	if !cfg.NoDetCheck {
+	if !cfg.NoDetCheck && !spec.RemoteFrontier {
 		e := &explorer{cfg: cfg, body: body, param: param, name: name, outcomes: newHashSet(), nontr: newHashSet()}
 		a, b := e.runOne(nil, false), e.runOne(nil, false)
 		if fmt.Sprint(a.trail, a.ops, a.out, a.fail == nil) != fmt.Sprint(b.trail, b.ops, b.out, b.fail == nil) {
@@ -305,7 +322,29 @@ func ExploreSharded(name string, cfg Config, spec WorkerSpec, param any, body fu
 		}
 	}
 	queue := []item{{}}
-	for len(queue) > 0 && len(queue) < spec.Frontier && len(res.Violations) < cfg.MaxViolations {
+	if spec.RemoteFrontier {
+		fspec := spec
+		fspec.Env = append(append([]string{}, spec.Env...), "MC_DETCHECK=1")
+		fw, err := startWorker(fspec)
+		if err != nil {
+			panic("mc: start frontier worker: " + err.Error())
+		}
+		for len(queue) > 0 && len(queue) < spec.Frontier && len(res.Violations) < cfg.MaxViolations {
+			it := queue[0]
+			queue = queue[1:]
+			resp, _, errText := fw.run(shardReq{Prefix: it.prefix, Deadline: cfg.Deadline, Bound: cfg.Bound, MaxViol: cfg.MaxViolations, Single: true})
+			if resp == nil {
+				fw.kill()
+				panic("mc: worker failure in " + name + " (frontier): " + errText)
+			}
+			for _, kid := range resp.Kids {
+				queue = append(queue, item{prefix: kid})
+			}
+			merge(resp)
+		}
+		fw.kill()
+	}
+	for !spec.RemoteFrontier && len(queue) > 0 && len(queue) < spec.Frontier && len(res.Violations) < cfg.MaxViolations {
 		it := queue[0]
 		queue = queue[1:]
 		// run exactly this execution (a subtree request that does not descend): emulate by
